@@ -481,6 +481,9 @@ func c15Gen(tier string, rng *rand.Rand, emit func(interface{})) {
 			mode = 0
 		}
 		xs := c15Xs(rng, n, mode)
+		if it%6 == 0 && mode != 2 && rng.Intn(2) == 0 { // "or rescaled": polynomial bases stay exact and cheap
+			c15Rescale(rng, xs, 2)
+		}
 		ys := make([]float64, n)
 		beta := make([]float64, len(basis))
 		for k := range beta {
@@ -789,6 +792,58 @@ func c15GenEdge(rng *rand.Rand, mul int, emit func(interface{})) {
 			qs = append(qs, m, m+1.0/64)
 		}
 		emit(c15Case{Op: 2, Xs: toF64s(xs), Ys: toF64s(ints(n, -8, 8)), Deg: deg, Span: F64(span), Qs: toF64s(qs)})
+	}
+	// ---- exactly determined weighted fits: all weights zero except on deg+1 (PolynomialRegression) / k
+	// (LinearLeastSquares) observations with distinct abscissae; n = k without weights ----
+	for it := 0; it < 16*mul; it++ {
+		deg := it % 5
+		n := deg + 2 + rng.Intn(5)
+		xs := c15Xs(rng, n, 0)
+		w := make([]float64, n)
+		for _, i := range rng.Perm(n)[:deg+1] {
+			w[i] = float64(1+rng.Intn(8)) / 4
+		}
+		emit(c15Case{Op: 1, Xs: toF64s(xs), Ys: toF64s(ints(n, -16, 16)), HasW: true, W: toF64s(w), Deg: deg,
+			Qs: toF64s(c15Queries(rng, xs, 7))})
+		if it%2 == 0 {
+			var basis []c15Term
+			a := float64(rng.Intn(5)-2) / 2
+			for p := 0; p <= deg; p++ {
+				basis = append(basis, c15Term{Kind: 0, A: F64(a), P: p})
+			}
+			c := c15Case{Op: 0, Xs: toF64s(xs), Ys: toF64s(ints(n, -16, 16)), Basis: basis}
+			if it%4 == 0 {
+				c.HasW, c.W = true, toF64s(w)
+			} else { // n = k: the square system
+				c.Xs, c.Ys = c.Xs[:deg+1], c.Ys[:deg+1]
+			}
+			emit(c)
+		}
+	}
+	// ---- LOESS, span*n an exact integer with n NOT a power of two (span = 1/2, 1/4, 3/4, 1/8 ...) ----
+	for it := 0; it < 12*mul; it++ {
+		deg := rng.Intn(3)
+		den := []int{2, 4, 4, 8}[it%4]
+		num := 1 + rng.Intn(den-1)
+		n := den * (2 + rng.Intn(4)) // span*n = num*n/den, an integer
+		for num*n/den < deg+2 {
+			n += den
+		}
+		if n > 40 {
+			continue
+		}
+		xs := c15Xs(rng, n, 0)
+		if it%3 != 0 {
+			sort.Float64s(xs)
+		}
+		s := append([]float64{}, xs...)
+		sort.Float64s(s)
+		q := num * n / den
+		qs := []float64{s[0], s[n-1], s[n/3], s[0] - 0.25, s[n-1] + 0.5}
+		if q < n {
+			qs = append(qs, (s[0]+s[q])/2, (s[n-1-q]+s[n-1])/2, (s[(n-q)/2]+s[(n-q)/2+q])/2+1.0/64)
+		}
+		emit(c15Case{Op: 2, Xs: toF64s(xs), Ys: toF64s(ints(n, -8, 8)), Deg: deg, Span: F64(float64(num) / float64(den)), Qs: toF64s(qs)})
 	}
 	// ---- LOESS window width: span*n exactly an integer j, and span one ulp either side (ceil boundary);
 	// n = q+1 (the search has a single position to decide); n = q; queries far outside the data ----
